@@ -505,8 +505,24 @@ func genEPUB(c *fw.Ctx, idx int, o genOpts) ([]byte, *pkgModel) {
 	okName := permuteAwayFromNameOrder(declared, c.Rand("pkg", idx, "declared"))
 
 	book := &epubw.Book{Version: ver, OPFPath: opf, Title: "c18 book", NavInSpine: -1, Guide: r.Intn(2) == 0}
+	// manifest ids are XML IDs: case-sensitive NCNames. Style 1 gives neighbours
+	// ids that differ only in case, style 2 ids with '.', '-', '_' and non-ASCII letters.
+	idStyle := c.Rand("pkg", idx, "idstyle").Intn(3)
+	switch idStyle {
+	case 1:
+		f.add("manifest-id=case-distinct")
+	case 2:
+		f.add("manifest-id=ncname-punctuation")
+	}
 	mk := func(i int, path string, rs *rand.Rand) (epubw.Chapter, part) {
-		ch := epubw.Chapter{ID: fmt.Sprintf("item%d", nums[i]), Path: path, Style: epubw.HrefStyle(rs.Intn(4))}
+		id := fmt.Sprintf("item%d", nums[i])
+		switch idStyle {
+		case 1:
+			id = fmt.Sprintf("%s%d", []string{"sec-a", "Sec-A", "SEC-A", "sec-A"}[i%4], nums[i-i%4])
+		case 2:
+			id = fmt.Sprintf("c.%d-é_x", nums[i])
+		}
+		ch := epubw.Chapter{ID: id, Path: path, Style: epubw.HrefStyle(rs.Intn(4))}
 		p := part{Path: path}
 		tt := toks.Next()
 		ch.Title = "T " + tt
